@@ -80,7 +80,8 @@ def run(tier, seed):
         # the used plugin's applied settings are its stored settings when the print starts
         gen = gen_motion.MotionGen(rng.randint(0, 10 ** 9),
                                    rng.choice(["motion", "extrusion", "deferred", "at"]),
-                                   length=rng.randint(10, 25), regions0=[], new_regions=0)
+                                   length=rng.randint(10, 25),
+                                   regions0=getattr(hist, "regions_view", []), new_regions=0)
         gen.useInch = rng.random() < 0.3
         # the probe generator does not know the registry: no arcs (their classification with
         # respect to the regions could not be computed), and no margins are relied upon because
